@@ -44,17 +44,36 @@ type Case struct {
 	// HoldAfter: a reader is taken after these batch indexes and held to the end ("open and new
 	// Readers keep answering according to the batches applied so far")
 	HoldAfter []int `json:"hold_after,omitempty"`
+	// ReopenFault, if set, fails one directory operation (list or load, the Seq-th of the reopen)
+	// while the writer is opened again after the run; the reopened writer must either report the
+	// error or work correctly, and two further batches must be accepted
+	ReopenFault *FaultSpec     `json:"reopen_fault,omitempty"`
+	Tail        []vlib.BatchSpec `json:"tail,omitempty"`
 }
 
 func gen(t *rapid.T) Case {
 	c := Case{Conf: vlib.IdxConf{Dir: "fs", SegVer: rapid.SampledFrom([]int{1, 1, 2}).Draw(t, "segVer"),
 		Unsafe:    rapid.IntRange(0, 2).Draw(t, "unsafe") == 0,
-		Merge:     rapid.SampledFrom([]string{"default", "default", "pairs", "nomem"}).Draw(t, "merge"),
+		Merge:     rapid.SampledFrom([]string{"default", "default", "pairs", "nomem", "none"}).Draw(t, "merge"),
 		Retention: rapid.SampledFrom([]int{1, 1, 2}).Draw(t, "retention")}}
 	g := vlib.NewHistGen(6)
 	n := rapid.IntRange(6, 12).Draw(t, "nBatches")
 	for i := 0; i < n; i++ {
 		c.Batches = append(c.Batches, g.Batch(t, 3))
+	}
+	if rapid.Bool().Draw(t, "reopenFault") {
+		c.ReopenFault = &FaultSpec{Ops: rapid.SampledFrom([]string{"list", "load", "any"}).Draw(t, "reopenOps"), Place: "before", Count: 1}
+		if c.ReopenFault.Ops == "list" {
+			c.ReopenFault.Seq = rapid.IntRange(1, 2).Draw(t, "reopenSeq") // an open lists snapshots, then segments
+			if rapid.Bool().Draw(t, "keepSegments") {
+				c.Conf.Merge = "none" // early segment files stay in the directory
+			}
+		} else {
+			c.ReopenFault.Seq = rapid.IntRange(1, 10).Draw(t, "reopenSeq")
+		}
+		// the first batch after the reopen always writes a document (a new segment)
+		first := vlib.BatchSpec{Ops: []vlib.Op{{Kind: "update", ID: g.IDPool[0], Doc: g.Doc(t, g.IDPool[0])}}}
+		c.Tail = []vlib.BatchSpec{first, g.Batch(t, 3)}
 	}
 	nh := rapid.IntRange(0, 3).Draw(t, "nHeld")
 	for i := 0; i < nh; i++ {
@@ -76,7 +95,7 @@ func gen(t *rapid.T) Case {
 }
 
 type stats struct {
-	injected, injectedBg, errBatches, asyncErrs, images, ackedAfter, heldUses int
+	injected, injectedBg, errBatches, asyncErrs, images, ackedAfter, heldUses, reopenErr, reopenSurvived int
 	ntKeys                                                         []string
 	kinds                                                          map[string]int
 }
@@ -304,20 +323,90 @@ func prop(c Case, st *stats) (fail *vlib.Failure) {
 		}
 	}
 	// reopen: everything acknowledged is there (the final image check above covers the state
-	// after Close; here the writer path)
-	x2, f := vlib.OpenIdx(c.Conf, dir, nil)
-	if f != nil {
-		f.Key = "reopen-failed"
-		return f
+	// after Close; here the writer path), optionally with a fault on a directory operation of
+	// the open itself
+	lo, hi := rr.Rec.StateRange(vlib.Interval{Lo: 0, Hi: 1 << 61})
+	var x2 *vlib.Idx
+	if c.ReopenFault != nil {
+		seq := 0
+		fired := false
+		armed := true
+		wrap := func(ic index.Config, base func() index.Directory) index.Config {
+			d := vlib.NewRecDir(dir, nil)
+			d.FaultFn = func(op, kind string, id uint64, _ int) *vlib.Fault {
+				if !armed || (op != "list" && op != "load") {
+					return nil
+				}
+				if c.ReopenFault.Ops != "any" && c.ReopenFault.Ops != op {
+					return nil
+				}
+				seq++
+				if seq == c.ReopenFault.Seq && !fired {
+					fired = true
+					st.kinds["reopen:"+op+kind]++
+					return &vlib.Fault{Place: "before", Err: vlib.ErrInjected}
+				}
+				return nil
+			}
+			ic.DirectoryFunc = func() index.Directory { return d }
+			return ic
+		}
+		var f *vlib.Failure
+		x2, f = vlib.OpenIdx(c.Conf, dir, wrap)
+		armed = false
+		if f != nil {
+			if f.Key != "open-writer-error" || !fired {
+				f.Key = "reopen-failed"
+				return f
+			}
+			st.reopenErr++
+			x2 = nil // the fault was reported through the error: contained; open again without it
+		} else if fired {
+			st.reopenSurvived++
+		}
+	}
+	if x2 == nil {
+		var f *vlib.Failure
+		x2, f = vlib.OpenIdx(c.Conf, dir, nil)
+		if f != nil {
+			f.Key = "reopen-failed"
+			return f
+		}
 	}
 	defer x2.Close()
 	o, f := x2.ObserveNow(ids)
 	if f != nil {
 		return f
 	}
-	lo, hi := rr.Rec.StateRange(vlib.Interval{Lo: 0, Hi: 1 << 61})
 	if _, why := vlib.MatchState(m.States, o.Keys(), lo, hi); why != "" {
 		return vlib.Failf("reopen-"+why, "after the faulty run and Close the writer reopens with %v; admissible states S_%d..S_%d", o.Keys(), lo, hi)
+	}
+	// the reopened writer accepts further batches (no fault is pending any more)
+	if len(c.Tail) > 0 && lo == hi {
+		for i, b := range c.Tail {
+			if f := x2.Batch(b); f != nil {
+				f.Msg = fmt.Sprintf("batch %d after reopening (reopen fault %+v): %s", i, *c.ReopenFault, f.Msg)
+				f.Key = "batch-error-after-reopen"
+				return f
+			}
+			m.Apply(b)
+			if f := x2.CheckModel(fmt.Sprintf("after reopen, batch %d", i), m, ev); f != nil {
+				return f
+			}
+		}
+		if f := x2.WaitPersisted(); f != nil {
+			return f
+		}
+		if f := x2.Close(); f != nil {
+			return f
+		}
+		o2, f := x2.OpenReaderObserve(m.SortedIDs())
+		if f != nil {
+			return f
+		}
+		if f := vlib.CompareModel("after reopen, tail batches, Close", m, o2); f != nil {
+			return f
+		}
 	}
 	return nil
 }
@@ -346,6 +435,8 @@ func TestC14Faults(t *testing.T) {
 		ev.Case(vlib.Canon(c), nt, cls...)
 		ev.Evals(st.images)
 		ev.AddExtra("faults_injected", st.injected)
+		ev.AddExtra("reopen_faults_reported_by_OpenWriter", st.reopenErr)
+		ev.AddExtra("reopen_faults_survived_by_OpenWriter", st.reopenSurvived)
 		ev.AddExtra("uses_of_readers_held_across_faults", st.heldUses)
 		ev.AddExtra("faults_on_persister_or_merger", st.injectedBg)
 		ev.AddExtra("batches_returning_the_injected_error", st.errBatches)
